@@ -1,6 +1,6 @@
 (* C26 — response rate limiting follows its token-bucket rule over time.
    Statements only; every proof is [exact <lemma from Proofs/RrlP.v>]. *)
-From QV Require Import Base.Res Base.Octets Model.Rrl Spec.RrlBucketS Proofs.RrlP.
+From QV Require Import Base.Res Base.Octets Model.Rrl Spec.RrlBucketS Spec.RrlMixS Proofs.RrlP Proofs.RrlMixP.
 Local Open Scope N_scope.
 
 (* Parameters accepted by RrlParams::new (and changed through the setters) are well
@@ -28,6 +28,21 @@ Theorem c26_refines : forall (hname : bytes -> N) (hkey : key -> N) p c k h,
              (bucket_run (rate_of p (k_category k)) (p_window p) (p_slip p) (abs_bucket hkey p t k) h) /\
     wf_table p t'.
 Proof. exact run_history_refines. Qed.
+
+(* Mixed traffic: inside ANY history of requests (any streams, transports, opcodes, times),
+   the decisions for the responses of stream k are those of k's token bucket over the
+   sub-history of its own responses; responses of other streams either leave the bucket alone
+   or, when the table puts them into the same slot (req_kind = Evicts, depends on the hash),
+   make the table forget it so that k's next response starts a new full bucket. *)
+Theorem c26_refines_mixed : forall (hname : bytes -> N) (hkey : key -> N) p k h, wf_params p ->
+  Forall (fun r => subject_to_rrl (fst (fst r)) = true -> key_of hname p (fst (fst r)) <> None) h ->
+  forall t, wf_table p t ->
+  exists t' cs,
+    run_requests hname hkey p t h = Ok (t', cs) /\ wf_table p t' /\
+    Forall2 verdict_matches cs
+      (bucket_run_mixed (rate_of p (k_category k)) (p_window p) (p_slip p) (abs_bucket hkey p t k)
+         (map (fun r => (req_kind hname hkey p t k (fst (fst r)), snd (fst r), snd r)) h)).
+Proof. exact run_requests_mixed. Qed.
 
 (* One step, with everything that the next step depends on (used by C27/C28 too). *)
 Theorem c26_step : forall (hname : bytes -> N) (hkey : key -> N) p t c k now rnd,
@@ -122,6 +137,7 @@ Qed.
 
 Print Assumptions c26_params_wf.
 Print Assumptions c26_refines.
+Print Assumptions c26_refines_mixed.
 Print Assumptions c26_step.
 Print Assumptions c26_new_wf.
 Print Assumptions c26_count_bound.
